@@ -29,7 +29,7 @@ ASSUMPTIONS = [
     "interleavings are sampled (statement granularity, one CPython build), not enumerated",
     "a hang is a violation only if every live thread is blocked acquiring the cache lock; any other watchdog expiry is inconclusive",
 ]
-REQUIRED = ["cases", "ops.decided", "yields.injected", "hook.activations", "cases.racy", "max.distinct_interleavings"]
+REQUIRED = ["cases", "ops.decided", "yields.injected", "hook.activations", "cases.racy", "max.distinct_interleavings", "cases.registry_churn", "ops.clear_cache_concurrent"]
 MIN_NONTRIVIAL = 20
 WATCHDOG = {"quick": 900, "thorough": 3 * 3600}
 CTX = None
@@ -329,7 +329,7 @@ def rand_program(rng, top):
 
 def plan(tier, seed):
     per = 10 if tier == "quick" else 125
-    return [{"name": f"threads-{i}", "kind": "threads", "cases": per} for i in range(16)]
+    return [{"name": f"threads-{i}", "kind": "threads", "cases": per, "registry": 6 if tier == "quick" else 40} for i in range(16)]
 
 
 def run(ctx, spec):
@@ -340,6 +340,17 @@ def run(ctx, spec):
         top = 6 if mesh else NMAX
         programs = [rand_program(rng, top) for _ in range(rng.choice([2, 2, 3, 4]))]
         chk_case(ctx, raw_enc, programs, rng.choice([0.05, 0.3, 0.3, 0.7]), rng.randrange(10 ** 9))
+        if STATE.get("hung"):
+            break
+    # registry churn: some threads keep creating handles from equal bases while others keep emptying the registry of classes
+    for _ in range(spec.get("registry", 0)):
+        raw_enc = rand_basis(rng)
+        creators = [[["fresh_count", rng.randint(0, 3)] for _ in range(rng.randint(8, 14))] for _ in range(rng.choice([2, 2, 3]))]
+        clearers = [[["clear", 0] for _ in range(rng.randint(8, 16))] for _ in range(rng.choice([1, 1, 2]))]
+        programs = creators + clearers
+        rng.shuffle(programs)
+        chk_case(ctx, raw_enc, programs, rng.choice([0.3, 0.5, 0.7, 0.9]), rng.randrange(10 ** 9))
+        ctx.count("cases.registry_churn")
         if STATE.get("hung"):
             break
     ctx.sample({"basis": raw_enc, "programs": programs})
